@@ -26,6 +26,7 @@ RULE = ('Hypothesis draws the state dimension d (1..3), the number of diffusion 
         'and numpy.linalg.svd. Non-trivial: non-square diffusion, reweighting, >= 3 modes, a coordinate shared by two modes, or the '
         'reversible variant.')
 ASSUMPTIONS = [
+    'tgEDMD: the dense reduced matrix has norm > 1e-8 and an eigenvector matrix of condition number < 1e5 (otherwise discarded)',
     'oracle: closed-form derivatives written in the harness (numpy.polynomial for Legendre), numpy.linalg.svd/eig',
     'product bases have at least two modes; basis functions are created with an explicit dimension',
     'thresholds lie far below the smallest non-zero singular value (no singular-value ratio of an unfolding of the weighted Psi in '
@@ -143,6 +144,8 @@ def common_labels(c):
         lab.add('shared_coordinate')
     if c.get('num_form', 'float') != 'float':
         lab.add('arrays_' + c['num_form'])
+    if c.get('special_points'):
+        lab.add('snapshots_on_special_points')
     return lab
 
 
@@ -192,7 +195,9 @@ def tgedmd_case(draw):
     c.update({'max_rank': draw(st.sampled_from([None, None, 1000])),'m': draw(st.integers(4, 10)), 'reversible': draw(st.booleans()), 'reweight': draw(st.booleans()),
               'rel_threshold': draw(st.booleans()), 'threshold_exp': draw(st.sampled_from([-10, -9, -8])),
               'return_option': draw(st.sampled_from(['eigenfunctionevals', 'eigenvectors', 'eigentensors'])),
-              'num_eigvals': draw(st.sampled_from([None, None, 1, 2, 3]))})
+              'num_eigvals': draw(st.sampled_from([None, None, 1, 2, 3])),
+              # snapshots exactly on special points of the basis functions (lattice data): zeros of factors, stationary points
+              'special_points': draw(st.sampled_from([False, False, True]))})
     return c
 
 
@@ -209,6 +214,12 @@ def body_tgedmd(c):
     p = len(n)
     N = int(np.prod(n))
     X = rng.uniform(-1, 1, (d, m))
+    if c.get('special_points'):
+        X[rng.random((d, m)) < 0.35] = 0.0                  # zero of Identity / Sin / odd polynomials, stationary point of x^2, Cos, ...
+        for f in c['phi']:
+            for sp in f:
+                if 'mean' in sp:
+                    X[sp['index'], int(rng.integers(m))] = sp['mean']      # maximum of a Gauss bump
     sigma = rng.standard_normal((d, d2, m))
     b = None if c['reversible'] else rng.standard_normal((d, m))
     if c.get('num_form') == 'int':
@@ -252,8 +263,13 @@ def body_tgedmd(c):
             a = sigma[:, :, l] @ sigma[:, :, l].T
             v = (G[:, :, l].T @ U) / S                 # (d, r)
             M += -0.5 * ww[l] * v.T @ a @ v
-    lam = np.linalg.eigvals(M)
-    lmax = max(np.max(np.abs(lam)), 1e-300)
+    lam, Wv = np.linalg.eig(M)
+    nM = float(np.linalg.norm(M, 2))
+    # the reduced matrix is invariant under a rescaling of Psi, so an absolute floor is meaningful: a spectrum that vanishes
+    # altogether (every selected function stationary at every snapshot) cannot be compared relatively; and eigenvalues of a
+    # (nearly) defective reduced matrix are not determined to 1e-6 (Bauer-Fike)
+    assume(nM > 1e-8 and np.linalg.cond(Wv) < 1e5)
+    lmax = max(np.max(np.abs(lam)), 1e-3 * nM)
     # far below every non-zero singular value (ratios >= 1e-4) but not negligible: 1e-6 relative, resp. 1e-6 * S[0] absolute --
     # confusing the two conventions on rescaled data cuts everything or nothing
     th = (10.0 ** max(c['threshold_exp'], -6)) * (1.0 if c['rel_threshold'] else S[0]) if c.get('scale_exp', 0) else \
